@@ -126,6 +126,162 @@ let rec eval_coef (pt : rat array) (c : coef) : rat =
 
 let rec take n l = if n = 0 then ([], l) else match l with x :: r -> let (a, b) = take (n - 1) r in (x :: a, b) | [] -> raise (Bad "short")
 
+
+(* ---------------------------------------------------------------- end points of every value kind (valio tokens):
+   the property is decided on the implementation's OUTPUT with the exact reference arithmetic (IntervalArithRef.v) *)
+exception Fuel
+exception Fail of string
+let fuel = big_fuel
+let ob = function Some b -> b | None -> raise Fuel
+let xval_of tok = try snd (value_of_token tok) with Bad_value m -> raise (Fail ("unreadable value " ^ tok ^ ": " ^ m))
+let rnum_of tok = match (try snd (value_of_token tok) with Bad_value m -> raise (Bad ("witness " ^ tok ^ ": " ^ m))) with
+  | XFin x -> x | _ -> raise (Bad "finite witness expected")
+let p_xitv (who : string) (toks : string list) : xval itv * string list =
+  let conv t = if who = "case" then (try snd (value_of_token t) with Bad_value m -> raise (Bad ("operand " ^ t ^ ": " ^ m))) else xval_of t in
+  match toks with
+  | "P" :: x :: r when (match r with f :: _ when String.length f > 5 && String.sub f 0 5 = "FLAGS" -> false | _ -> true) ->
+      ({ ia = conv x; ib = XMinf; ia_open = false; ib_open = false; ipt = true }, r)
+  | "P" :: _ -> raise (Fail "a point interval with an open flag set")
+  | "I" :: ao :: a :: bo :: b :: r ->
+      ({ ia = conv a; ib = conv b; ia_open = (ao = "1"); ib_open = (bo = "1"); ipt = false }, r)
+  | _ -> raise (Fail "unreadable interval in the output")
+let rec split_semis (toks : string list) : string list list =
+  let rec go cur acc = function
+    | [] -> List.rev (List.rev cur :: acc)
+    | ";" :: r -> go [] (List.rev cur :: acc) r
+    | t :: r -> go (t :: cur) acc r in
+  go [] [] toks
+let str_xitv (i : xval itv) =
+  if i.ipt then "[" ^ string_of_xval i.ia ^ "]"
+  else (if i.ia_open then "(" else "[") ^ string_of_xval i.ia ^ ", " ^ string_of_xval i.ib ^ (if i.ib_open then ")" else "]")
+let variant_name k = List.nth ["fresh output"; "pre-used output"; "output aliased with operand 1"; "output aliased with operand 2"] k
+
+(* checks common to aadd / amul / apow on the list of result intervals *)
+let check_results (rs : xval itv list) (zs : xval list) (corners : (xval * bool) list) (exact : xval option) (lost : string) =
+  if lost <> "lost=0" then raise (Fail ("SEMANTIC: the library's own lp_interval_contains rejects witness values x o y on its result (" ^ lost ^ ")"));
+  let r1 = List.hd rs in
+  List.iteri (fun k r ->
+    if not (ob (xi_wf fuel r)) then raise (Fail (variant_name k ^ ": result " ^ str_xitv r ^ " is not a well-formed interval (a < b, or a closed point)"));
+    List.iter (fun z -> if not (ob (xi_contains fuel r z)) then
+      raise (Fail (variant_name k ^ ": result " ^ str_xitv r ^ " does not contain the exact witness value " ^ string_of_xval z))) zs;
+    List.iter (fun (c, att) -> if not (ob (xi_encloses fuel r c att)) then
+      raise (Fail (variant_name k ^ ": result " ^ str_xitv r ^ " does not enclose the exact end-point image " ^ string_of_xval c ^
+                   (if att then " (attained)" else " (limit)")))) corners;
+    (match exact with
+     | Some v -> if not (ob (is_point_of_value fuel r v)) then
+         raise (Fail (variant_name k ^ ": operands are points with rational values but the result " ^ str_xitv r ^ " is not the point " ^ string_of_xval v))
+     | None -> ());
+    if k > 0 && not (ob (xi_same fuel r1 r)) then
+      raise (Fail (variant_name k ^ " gives " ^ str_xitv r ^ " but the fresh output gives " ^ str_xitv r1))) rs
+
+let operand_ok i = if not (ob (xi_wf fuel i)) then raise (Bad "operand is not a well-formed interval")
+
+let run_abin (mul : bool) toks cout =
+  let (i1, r) = p_xitv "case" toks in
+  let (i2, r) = p_xitv "case" r in
+  let (_, r) = p_xitv "case" (skip "U" r) in
+  let w = skip "W" r in
+  operand_ok i1; operand_ok i2;
+  let rec wit acc = function
+    | x :: y :: z :: rest ->
+        let xr = rnum_of x and yr = rnum_of y and zr = rnum_of z in
+        if not (ob (xi_contains fuel i1 (XFin xr)) && ob (xi_contains fuel i2 (XFin yr))) then raise (Bad ("witness outside its operand: " ^ x ^ " " ^ y));
+        if not (ob ((if mul then is_prod else is_sum) fuel xr yr zr)) then raise (Bad ("witness " ^ z ^ " is not x o y for " ^ x ^ " " ^ y));
+        wit (XFin zr :: acc) rest
+    | _ -> List.rev acc in
+  let zs = wit [] w in
+  let groups = split_semis cout in
+  (match List.rev groups with
+   | lost :: rest ->
+       let rs = List.map (fun g -> fst (p_xitv "out" g)) (List.rev rest) in
+       if List.length rs <> 4 then raise (Fail "four result intervals expected");
+       if List.length lost <> 1 then raise (Fail ("driver reported " ^ String.concat " " lost));
+       let corners = ob (corners_bin fuel mul i1 i2) in
+       let exact =
+         if ob (rational_point fuel i1) && ob (rational_point fuel i2)
+         then (if mul then xv_mul fuel i1.ia i2.ia else xv_add fuel i1.ia i2.ia) else None in
+       check_results rs zs corners exact (List.hd lost)
+   | [] -> raise (Fail "empty output"));
+  "CHECK ok"
+
+let run_apow toks cout =
+  match toks with
+  | n :: r ->
+      let n = n_of_string n in
+      let (i, r) = p_xitv "case" r in
+      let (_, r) = p_xitv "case" (skip "U" r) in
+      let w = skip "W" r in
+      operand_ok i;
+      let rec wit acc = function
+        | x :: z :: rest ->
+            let xr = rnum_of x and zr = rnum_of z in
+            if not (ob (xi_contains fuel i (XFin xr))) then raise (Bad ("witness outside its operand: " ^ x));
+            if not (ob (is_pow fuel xr n zr)) then raise (Bad ("witness " ^ z ^ " is not x^n for " ^ x));
+            wit (XFin zr :: acc) rest
+        | _ -> List.rev acc in
+      let zs = wit [] w in
+      let groups = split_semis cout in
+      (match List.rev groups with
+       | lost :: rest ->
+           let rs = List.map (fun g -> fst (p_xitv "out" g)) (List.rev rest) in
+           if List.length rs <> 3 then raise (Fail "three result intervals expected");
+           if List.length lost <> 1 then raise (Fail ("driver reported " ^ String.concat " " lost));
+           let corners = ob (corners_pow fuel i n) in
+           let exact = if ob (rational_point fuel i) then xv_pow fuel i.ia n else None in
+           check_results rs zs corners exact (List.hd lost)
+       | [] -> raise (Fail "empty output"));
+      "CHECK ok"
+  | _ -> raise (Bad "apow")
+
+(* nested coefficient description -> flat terms for mp_of_terms *)
+let rec coef_terms (c : coef) : ((n * n) list * z) list =
+  match c with
+  | CNum z -> if sgn_of_z z = 0 then [] else [([], z)]
+  | CRec (x, cs) ->
+      let xv = n_of_int (int_of_nat x) in
+      List.concat (List.mapi (fun i ci ->
+        List.map (fun (m, z) -> ((if i = 0 then m else m @ [(xv, n_of_int i)]), z)) (coef_terms ci)) cs)
+
+let run_apoly toks cout =
+  match toks with
+  | nv :: r ->
+      let nv = int_of_string nv in
+      let (c, r) = p_coef r in
+      let r = skip "A" r in
+      let rec ivs k r acc = if k = 0 then (List.rev acc, r) else let (i, r) = p_xitv "case" r in ivs (k - 1) r (i :: acc) in
+      let (is, r) = ivs nv r [] in
+      List.iter operand_ok is;
+      let arr = Array.of_list is in
+      let p = mp_of_terms (List.map (fun (m, z) -> (List.sort (fun (a, _) (b, _) -> compare (int_of_n a) (int_of_n b)) m, z)) (coef_terms c)) in
+      let rec pts acc r =
+        if List.length r >= nv + 1 then begin
+          let (pt, r') = take nv r in
+          (match r' with
+           | z :: r'' ->
+               let xs = Array.of_list (List.map rnum_of pt) in
+               Array.iteri (fun k x -> if not (ob (xi_contains fuel arr.(k) (XFin x))) then raise (Bad "witness outside its operand")) xs;
+               let rho (v : n) = let k = int_of_n v in if k < Array.length xs then xs.(k) else RQ (z_of_int 0, z_of_int 1) in
+               let zr = rnum_of z in
+               (match mp_eval_rn fuel rho p with
+                | Some v -> if sgn_of_z (ob (rn_cmp fuel zr v)) <> 0 then raise (Bad ("witness " ^ z ^ " is not p(x)"))
+                | None -> raise Fuel);
+               pts (XFin zr :: acc) r''
+           | [] -> List.rev acc)
+        end else List.rev acc in
+      let zs = pts [] (skip "W" r) in
+      (match split_semis cout with
+       | [g; [lost]] ->
+           let res = fst (p_xitv "out" g) in
+           if lost <> "lost=0" then raise (Fail ("SEMANTIC: the library's own lp_interval_contains rejects values p(x) of box points on its result (" ^ lost ^ ")"));
+           if not (ob (xi_wf fuel res)) then raise (Fail ("result " ^ str_xitv res ^ " is not a well-formed interval"));
+           List.iter (fun z -> if not (ob (xi_contains fuel res z)) then
+             raise (Fail ("result " ^ str_xitv res ^ " does not contain the exact value " ^ string_of_xval z ^ " of the polynomial at a point of the box"))) zs
+       | _ -> raise (Fail ("unreadable output " ^ String.concat " " cout)));
+      "CHECK ok"
+  | _ -> raise (Bad "apoly")
+
+let run_a f = try f () with Fuel -> "FUEL" | Fail m -> "CHECK fail " ^ m
+
 let run (toks : string list) (_cout : string list) : string =
   try
     match toks with
@@ -196,5 +352,9 @@ let run (toks : string list) (_cout : string list) : string =
           end in
         pts (skip "W" r);
         str_itv str_val res ^ " ; lost=0"
+    | "aadd" :: r -> run_a (fun () -> run_abin false r _cout)
+    | "amul" :: r -> run_a (fun () -> run_abin true r _cout)
+    | "apow" :: r -> run_a (fun () -> run_apow r _cout)
+    | "apoly" :: r -> run_a (fun () -> run_apoly r _cout)
     | _ -> "UNKNOWN-OP"
   with Bad s -> "MODEL-ERROR " ^ s
